@@ -37,6 +37,9 @@ type spec struct {
 	line      string
 	fields    []string
 	known     bool // line and fields are known
+	flags      []bool // per field: assigned by the program (a string) rather than split from input (a strnum)
+	lineTrue   bool   // $0 was assigned / rebuilt by the program
+	flagsKnown bool
 	nfTainted bool
 	fs        string
 	fsRe      *regexp.Regexp
@@ -124,6 +127,7 @@ func (sp *spec) setRecord(t string) {
 	sp.line = t
 	f, ok := sp.split(t)
 	sp.fields, sp.known = f, ok
+	sp.flags, sp.flagsKnown = make([]bool, len(f)), ok // fields split from a record are number-looking strings
 	sp.nfTainted = false
 	if !sp.keepTaint {
 		sp.taint = ""
@@ -185,6 +189,7 @@ func (sp *spec) get(n float64) (string, bool) {
 func (sp *spec) set(n float64, t string) (wantErr bool) {
 	if n == 0 {
 		sp.setRecord(t)
+		sp.lineTrue = true
 		return false
 	}
 	if n > maxFieldIndex {
@@ -202,9 +207,14 @@ func (sp *spec) set(n float64, t string) (wantErr bool) {
 	for float64(len(sp.fields)) < n {
 		sp.fields = append(sp.fields, "")
 	}
+	for len(sp.flags) < len(sp.fields) {
+		sp.flags = append(sp.flags, true)
+	}
 	sp.fields = append([]string{}, sp.fields...)
 	sp.fields[int(n)-1] = t
+	sp.flags[int(n)-1] = true
 	sp.line = sp.join(sp.fields)
+	sp.lineTrue = true
 	sp.nfTainted = false
 	return false
 }
@@ -225,7 +235,14 @@ func (sp *spec) setNF(n float64) (wantErr bool) {
 		f = append(f, "")
 	}
 	sp.fields = f
+	if k < len(sp.flags) {
+		sp.flags = sp.flags[:k]
+	}
+	for len(sp.flags) < k {
+		sp.flags = append(sp.flags, false)
+	}
 	sp.line = sp.join(f)
+	sp.lineTrue = true
 	return false
 }
 
@@ -243,6 +260,8 @@ func modApply(kind, old string) (string, bool, bool) { // new text, store?, know
 		return strings.ReplaceAll(old, "a", "bb"), true, true
 	case "app":
 		return old + "x", true, true
+	case "id", "idsv":
+		return old, true, true
 	case "incr", "add2":
 		d := int64(1)
 		if kind == "add2" {
@@ -364,6 +383,8 @@ func opClass(sp *spec, o op) string {
 		return "modfield-" + o.T + "-idx-" + idxc(o.I)
 	case "G":
 		return "getfield-idx-" + idxc(o.I)
+	case "T":
+		return "typeof-idx-" + idxc(o.I)
 	case "W":
 		if canonicalCount(o) {
 			return "setnf-integral"
@@ -494,10 +515,39 @@ func checkScript(s script, impl []string) []hx.Failure {
 		switch o.K {
 		case "R":
 			sp.setRecord(o.T)
+			sp.lineTrue = false
 		case "G":
 			n, ok, _ := sp.evalIdx(o.I)
 			v, vk := sp.get(n)
 			wantOut, outKnown = "v="+abbr(v), ok && vk
+		case "T":
+			// typing: a field split from input is a number-looking string (compares as a number
+			// when it looks like one), a field or $0 assigned by the program is a string
+			n, ok, _ := sp.evalIdx(o.I)
+			v, vk := sp.get(n)
+			outKnown = ok && vk && sp.known
+			if outKnown {
+				wantOut = "t=-"
+				if v == "10" {
+					if !sp.flagsKnown {
+						outKnown = false
+						break
+					}
+					fl := sp.lineTrue
+					if n != 0 {
+						j := n
+						if j < 0 {
+							j = float64(len(sp.fields)) + 1 + j
+						}
+						fl = sp.flags[int(j)-1]
+					}
+					if fl {
+						wantOut = "t=S"
+					} else {
+						wantOut = "t=N"
+					}
+				}
+			}
 		case "S", "L":
 			n, ok, _ := sp.evalIdx(o.I)
 			if !ok {
@@ -536,6 +586,10 @@ func checkScript(s script, impl []string) []hx.Failure {
 				wantErr = sp.setNF(math.Trunc(v))
 			}
 		case "D":
+			if sp.nfTainted && sp.taint == "" {
+				// NF +/- d computed from a non-integral NF: the field count itself may be off by one
+				sp.taint = "setnf-nonintegral-or-string"
+			}
 			if sp.known {
 				wantErr = sp.setNF(float64(len(sp.fields) + o.D))
 			} else {
@@ -597,6 +651,8 @@ func checkScript(s script, impl []string) []hx.Failure {
 		if outKnown && gotOut != wantOut {
 			or := "value read = the field / $0 / NF the specification holds"
 			switch o.K {
+			case "T":
+				or = "a field split from input compares as a number, an assigned one as a string"
 			case "N":
 				or = "NF = number of fields"
 			case "V":
@@ -613,7 +669,7 @@ func checkScript(s script, impl []string) []hx.Failure {
 		}
 		// reads change nothing (checked on $0 directly, whatever the expectation state)
 		switch o.K {
-		case "G", "N", "V", "F", "O", "P", "U", "I", "K":
+		case "G", "T", "N", "V", "F", "O", "P", "U", "I", "K":
 			if step > 0 && step-1 < len(impl) {
 				pp := strings.SplitN(impl[step-1], " r=", 2)
 				if len(pp) == 2 && pp[1] != gotLine {
@@ -637,6 +693,7 @@ func checkScript(s script, impl []string) []hx.Failure {
 			if f, ok := parseAll(gotOut); ok {
 				if l, ok2 := unabbr(gotLine); ok2 {
 					sp.fields, sp.line, sp.known = f, l, true
+					sp.flags, sp.flagsKnown = make([]bool, len(f)), false
 				}
 			}
 		}
